@@ -105,6 +105,17 @@ impl UDPSender {
   }
 
   pub fn send_to_locator(&self, buffer: &[u8], locator: &Locator) {
+    #[cfg(rustdds_verif)]
+    match crate::verif::hooks::tap(buffer, locator) {
+      crate::verif::hooks::TapDecision::Swallow => return,
+      crate::verif::hooks::TapDecision::SendTwice => {
+        // duplicate: the nested call sees the bypass flag and sends normally
+        crate::verif::hooks::tap_bypass(true);
+        self.send_to_locator(buffer, locator);
+        crate::verif::hooks::tap_bypass(false);
+      }
+      crate::verif::hooks::TapDecision::Send => (),
+    }
     if buffer.len() > 1500 {
       warn!("send_to_locator: Message size = {}", buffer.len());
     }
